@@ -189,5 +189,6 @@ type Result struct {
 	Events     uint64           `json:"events"`
 	Case       *Case            `json:"case,omitempty"` // present for violations and samples
 	WallUs     int64            `json:"wallus"`
+	Known      []KnownHit       `json:"known,omitempty"` // recorded known findings met (and stepped over) by this run
 	JournalH   uint64           `json:"journalh"` // hash of every journal entry (kind, path, offset, length, content crc, op, event stamp)
 }
